@@ -52,6 +52,10 @@ def gen(rng, tier):
     for _ in range(n // 2):
         s = G.rand_sig(rng, 2)
         yield G.case_de_s("--", rng.random() < 0.5, rng.randint(0, 9), 2, G.sigstr(s), bytes(rng.randrange(256) for _ in range(rng.randint(0, 24))))
+    for w in G.wide_values():
+        big = rng.random() < 0.5
+        b, _ = G.marshal(('v', w), big, 0)
+        yield G.case_de_v("--", big, 0, 0, b)
     # unsorted and duplicate dict keys are valid encodings
     for big in (False, True):
         v = ('e', 's', 'u', [(('s', b"b"), ('u', 1)), (('s', b"a"), ('u', 2)), (('s', b"b"), ('u', 3))])
